@@ -189,7 +189,9 @@ class Faults:
 
     def __init__(self, top, faults):
         self.top = top
-        self.faults = {(k, b): e for k, e, b in faults}
+        self.faults = {}
+        for k, e, b in faults:                 # the first fault listed for a (kind, basename) wins
+            self.faults.setdefault((k, b), e)
         self.depth = 0
 
     def _hit(self, kind, path):
@@ -480,7 +482,7 @@ DESTS = ["/usr", "/usr", "/usr/share", "/", "/usr/lib/q", "usr", "/x/y", "/opt"]
 INSOPTS_OK = ["-m0644", "-m0755", "-m 0600", "--mode=0700", "-p", "-m0640 -p", "-m755", "'-m 0600'"]
 INSOPTS_FALLBACK = ["-m u=rwx,go=rx", "-m0644 -C", "-m a=r", "-m u=rw,go=r -C", "-C"]
 INSOPTS_FALLBACK_FAIL = ["-m u=zzz", "-m0648", "-m g=q"]
-REAL_SHARE = 0.2      # share of forced-fallback requests that spawn the real install(1)
+REAL_SHARE = 0.1      # share of forced-fallback requests that spawn the real install(1)
 UNKNOWN_OPTS = ["--bogus=1", "extra", "-q", "--xdest=/a", "it's", 'say "hi"', "tab\\tx"]
 
 
@@ -649,6 +651,13 @@ def session_oracle(w, meta, res):
                            "requests": len(reqs)}))
     if end == "finished" and meta["broken"] is None and len(lines) != len(reqs):
         out.append((None, {"what": "phase finished but replies != requests", "wire": wire, "requests": len(reqs)}))
+    # nonfatal_returns_code: every failing external command ends its request with exactly that code,
+    # so the non-zero statuses answered by the oracle are a subsequence of the reply statuses
+    codes = [st for st, _ in w.oracle.answers if st != 0]
+    it = iter(l.split("\x07", 1)[0] for l in lines)
+    if not all(any(str(c) == got for got in it) for c in codes):
+        out.append((None, {"what": "a failing external command's exit status is not the status of a reply",
+                           "request": [list(r) for r in reqs], "external_statuses": codes, "wire": wire}))
     img = dict(e.split("=", 1) for e in snap)
     for (cmd, nonfatal, opts, args), line in zip(reqs, lines):
         status = line.split("\x07", 1)[0]
@@ -892,7 +901,7 @@ def main(chk: Check):
              "seen is also read back by the REAL bash __ebd_read_array + __ipc_exit; REAL bash __ebd_ipc_cmd "
              "round trips over a pipe pair")
     import time
-    tm = {}
+    tm = {"startup": time.time() - chk.t0}
     t0 = time.time()
     ok = chk.build(["C32/Prop_C32.vo"])
     tm["build"] = time.time() - t0
@@ -900,8 +909,10 @@ def main(chk: Check):
     if ok:
         chk.check_assumptions("C32/Prop_C32.v")
     tm["assumptions"] = time.time() - t0
+    t0 = time.time()
     chk.lint(["C32"])
     chk.check_fingerprint(ANCHORS + ["../../data/lib/pkgcore/ebd/ebuild-daemon-lib.bash"])
+    tm["lint+fingerprint"] = time.time() - t0
     rng = chk.rng
     scale = float(os.environ.get("C32_SCALE", "1"))
     scratch = str(chk.scratch)
@@ -926,7 +937,7 @@ def main(chk: Check):
             prop_bad.append((cls, detail))
 
     t0 = time.time()
-    n_sess = int(chk.n(100, 1500) * scale)
+    n_sess = int(chk.n(80, 600) * scale)
     for i in range(n_sess):
         w, down, meta = gen_session(rng, scratch, i)
         try:
@@ -941,6 +952,10 @@ def main(chk: Check):
         ([], [("real",)], [("doexe", True, "--dest=/usr '--insoptions=-m u=zzz'", ["a"])], None),
         ([], [("say", 2, ["tar: not an archive", "tar: Exiting with failure status"])],
          [("eapply", True, "", ["a"]), ("doins", True, "--dest=/usr", ["b"])], None),
+        # the exit status of a failing install(1) is the status of the reply, fatal or not
+        ([], [("say", 2, ["install: boom"])], [("doexe", False, "--dest=/usr '--insoptions=-m u=rwx,go=rx'", ["a"])], None),
+        ([], [("say", 77, ["install: boom", "more"])],
+         [("dodir", True, "'--diroptions=-m u=rwx,go=rx'", ["/x"]), ("dodir", True, "", ["/y"])], None),
         # a nonfatal failure inside a copy loop must not poison the helper object (C32-helper-state-reset)
         ([("usr/a", "d")], [], [("doins", True, "--dest=/usr", ["a"]), ("doins", True, "--dest=/opt", ["a"])], None),
         # a fallback request must not make later plain requests of the same helper use install(1)
@@ -978,7 +993,7 @@ def main(chk: Check):
     t0 = time.time()
     # ---- real bash round trips
     rq_cases, rt_reply_cases = [], []
-    n_rt = int(chk.n(4, 40) * scale) or 1
+    n_rt = int(chk.n(3, 20) * scale) or 1
     for i in range(n_rt):
         plan = []
         calls = []
@@ -1036,12 +1051,12 @@ def main(chk: Check):
     t0 = time.time()
     # ---- small streams
     shlex_cases = [(bs(esc(s)), Raw(rval(impl_call(lambda: shlex.split(s), kinds={"ValueError": "ValueError"}))))
-                   for s in gen_shlex(rng, int(chk.n(150, 3000) * scale))]
+                   for s in gen_shlex(rng, int(chk.n(150, 1500) * scale))]
     chk.count("shlex", len(shlex_cases))
-    repr_cases = [(bs(esc(s)), Raw(rval(repr(s)))) for s in gen_repr(rng, int(chk.n(90, 2000) * scale))]
+    repr_cases = [(bs(esc(s)), Raw(rval(repr(s)))) for s in gen_repr(rng, int(chk.n(90, 1000) * scale))]
     chk.count("repr", len(repr_cases))
     enc_cases = []
-    for kind, code, payload in gen_enc(rng, int(chk.n(80, 1500) * scale)):
+    for kind, code, payload in gen_enc(rng, int(chk.n(80, 800) * scale)):
         if kind == "n":
             v = ebd_ipc.IpcCommand._encode_ret(None)
         elif kind == "i":
@@ -1064,7 +1079,7 @@ def main(chk: Check):
                 "impl": str(ebd_ipc.IpcCommand._encode_ret((2, "tar: not an archive\ntar: Exiting\n")))})
 
     # ---- real bash reading reply lines
-    rd_in = gen_bashrd(rng, int(chk.n(40, 600) * scale), wires[: int(chk.n(80, 400))])
+    rd_in = gen_bashrd(rng, int(chk.n(40, 300) * scale), wires[: int(chk.n(80, 300))])
     rd_out = bash_read_replies(rd_in)
     rd_cases = []
     if len(rd_out) != len(rd_in):
@@ -1138,6 +1153,7 @@ def main(chk: Check):
             chk.violation("correspondence", detail, no_input=not (prop_bad or spec_bad))
 
     tm["coq_eval"] = time.time() - t0
+    tm["total_so_far"] = time.time() - chk.t0
     chk.cov["timing_s"] = {k: round(v, 1) for k, v in tm.items()}
     # ---- property failures
     seen_cls = set()
